@@ -734,3 +734,61 @@ def corrupt_trace(trace_path, out_path, rng, mode):
         return None
     open(out_path, "w").writelines(lines)
     return i
+
+
+def graph_from_transitions(trs, is_init):
+    """Build a Graph from (src, act, dst) triples (Gen configs).  States are keyed by their canonical JSON."""
+    g = Graph()
+    def key(s):
+        return hashlib.sha1(json.dumps(s, sort_keys=True).encode()).hexdigest()
+    for (s, a, d) in trs:
+        ks, kd = key(s), key(d)
+        if ks not in g.states:
+            g.states[ks] = s
+            if is_init(s):
+                g.init.append(ks)
+        if kd not in g.states:
+            g.states[kd] = d
+        g.edges.append((ks, kd, a))
+        g.out.setdefault(ks, []).append((kd, a))
+    return g
+
+
+def go_test_sharded(pkg, run, nshards, env_for, timeout=1800, race=False, tags="verif"):
+    """Build the harness test binary once and run `nshards` copies concurrently (separate processes:
+    aergo keeps configuration in package globals).  env_for(i) -> env dict of shard i (VERIF_SHARD is added).
+    Returns list of (returncode, output)."""
+    import concurrent.futures
+    ov = gen_overlay()
+    bindir = os.path.join(WORK, "gobin")
+    os.makedirs(bindir, exist_ok=True)
+    exe = os.path.join(bindir, "s-%s-%d.test" % (hashlib.sha1((pkg + run + REPO).encode()).hexdigest()[:10], os.getpid()))
+    cmd = ["go", "test", "-c", "-tags", tags, "-overlay", ov, "-vet=off", "-o", exe]
+    if race:
+        cmd.append("-race")
+    cmd.append(pkg)
+    r = subprocess.run(cmd, cwd=REPO, env=goenv(), capture_output=True, text=True, timeout=1800)
+    if r.returncode != 0 or not os.path.exists(exe):
+        raise Infra("harness does not build (%s):\n%s" % (pkg, (r.stdout + r.stderr)[-4000:]))
+
+    def one(i):
+        cwd = os.path.join(bindir, "cwd-%d-%d" % (os.getpid(), i))
+        os.makedirs(cwd, exist_ok=True)
+        e = dict(env_for(i))
+        e["VERIF_SHARD"] = "%d/%d" % (i, nshards)
+        try:
+            p = subprocess.run([exe, "-test.run", run, "-test.timeout", "%ds" % timeout, "-test.count", "1"],
+                               cwd=cwd, env=goenv(e), capture_output=True, text=True, timeout=timeout + 60)
+            return p.returncode, p.stdout + p.stderr
+        except subprocess.TimeoutExpired:
+            return 124, "timeout"
+        finally:
+            shutil.rmtree(cwd, ignore_errors=True)
+    try:
+        with concurrent.futures.ThreadPoolExecutor(max_workers=nshards) as ex:
+            return list(ex.map(one, range(nshards)))
+    finally:
+        try:
+            os.remove(exe)
+        except OSError:
+            pass
